@@ -406,7 +406,7 @@ type idxPkg struct{ name, typ string }
 
 // indexCase scans an inventory made of pkgs (half from the filesystem extractor, half from the
 // standalone one) and lets one detector query the index for every (name, type) of the alphabet.
-func indexCase(pkgs []idxPkg) (key, detail string) {
+func indexCase(pkgs []idxPkg, failingStandalone bool) (key, detail string) {
 	mk := func(d idxPkg) *extractor.Package {
 		return &extractor.Package{Name: d.name, Version: "1", Locations: []string{"f.pkg"}, Metadata: &metaT{d.typ}}
 	}
@@ -428,6 +428,15 @@ func indexCase(pkgs []idxPkg) (key, detail string) {
 		}
 		return inv, nil
 	}}}
+	sts := []standalone.Extractor{se}
+	if failingStandalone {
+		// a standalone extractor that fails, listed BEFORE the one that delivers: what the other
+		// extractors found must still reach the index, and both get a status
+		bad := &stEx{scankit.StEx{N: "st-bad", Fn: func(context.Context, *standalone.ScanInput) (inventory.Inventory, error) {
+			return inventory.Inventory{}, errors.New("standalone extractor failed")
+		}}}
+		sts = []standalone.Extractor{bad, se}
+	}
 	var problems []string
 	ran := 0
 	det := &scankit.Det{N: "det-0", Fn: func(_ context.Context, _ *scalibrfs.ScanRoot, px *packageindex.PackageIndex) ([]*detector.Finding, error) {
@@ -471,17 +480,27 @@ func indexCase(pkgs []idxPkg) (key, detail string) {
 	}}
 	cfg := &scalibr.ScanConfig{
 		FilesystemExtractors: []filesystem.Extractor{fe},
-		StandaloneExtractors: []standalone.Extractor{se},
+		StandaloneExtractors: sts,
 		Detectors:            []detector.Detector{det},
 		Capabilities:         &plugin.Capabilities{},
 		ScanRoots:            []*scalibrfs.ScanRoot{{FS: memfs.New(memfs.D("", memfs.F("f.pkg", "x"))), Path: ""}},
 	}
-	p, stack := ev.Recover(func() { scalibr.New().Scan(context.Background(), cfg) })
+	var res *scalibr.ScanResult
+	p, stack := ev.Recover(func() { res = scalibr.New().Scan(context.Background(), cfg) })
 	if p != nil {
 		return "panic:" + ev.PanicSite(stack), fmt.Sprint(p)
 	}
 	if ran != 1 {
 		return "detector-run-count", fmt.Sprintf("det-0 ran %d times", ran)
+	}
+	if failingStandalone {
+		st := map[string]plugin.ScanStatusEnum{}
+		for _, s := range res.PluginStatus {
+			st[s.Name] = s.Status.Status
+		}
+		if st["st-bad"] != plugin.ScanStatusFailed || st["st-ex"] != plugin.ScanStatusSucceeded || st["fs-ex"] != plugin.ScanStatusSucceeded {
+			return "plugin-status", fmt.Sprintf("with a failing standalone extractor listed first: statuses %v", st)
+		}
 	}
 	if len(problems) > 0 {
 		return "index-lookup-by-purl-name", strings.Join(problems[:min(3, len(problems))], "; ")
@@ -507,11 +526,13 @@ func indexNames(r *ev.Run) {
 	}
 	cases = append(cases, all)
 	r.ParallelFor(len(cases), func(i int) {
-		k, d := indexCase(cases[i])
-		r.Evals.Add(1)
-		r.Nontrivial.Add(1)
-		if k != "" {
-			r.Violation(k, fmt.Sprintf("inventory %v: %s", cases[i], d), map[string]any{"index_inventory": fmt.Sprint(cases[i])})
+		for _, failing := range []bool{false, true} {
+			k, d := indexCase(cases[i], failing)
+			r.Evals.Add(1)
+			r.Nontrivial.Add(1)
+			if k != "" {
+				r.Violation(k, fmt.Sprintf("inventory %v (failing standalone extractor listed first: %v): %s", cases[i], failing, d), map[string]any{"index_inventory": fmt.Sprint(cases[i]), "failing_standalone": failing})
+			}
 		}
 	})
 	r.Set("index_name_cases", len(cases))
